@@ -18,6 +18,13 @@
    * a message is one 3-byte payload in one buffer slice; `unread` counts messages.
    * `Send(c, TRUE)` / `PeerReply(s, TRUE)`: the shared memory is exhausted for the duration of that one call (the
      harness hogs every free buffer, performs the call, gives the buffers back).
+   * callback mode (feature "cb"): the callbacks' OnData consumes ONE message and then stays inside OnData until the
+     environment step CbReturn lets it return; a stream whose OnData is running has `inproc`. Named restriction: a
+     pooled stream whose previous user's OnData is still running is not handed out again (the environment lets OnData
+     return first), and a session with a running OnData is not closed/torn down (the teardown would wait for it).
+   * feature "split": PutBack is three steps (reset / ReleaseReadAndReuse / push-or-close) that other callers and the
+     environment interleave with; the binding runs the real PutBack under the serialising scheduler and parks it at the
+     entry of Stream.ReleaseReadAndReuse and of streamPool.push.
    * bounded: N stream ids, MaxOwed unanswered requests and MaxUnread unread answers per stream, MaxSess sessions. *)
 EXTENDS Integers, Sequences, FiniteSets
 
@@ -26,10 +33,13 @@ CONSTANTS Callers,          \* e.g. {1, 2}
           N,                \* stream ids 1..N, in the order of OpenStream
           MaxSess,          \* sessions 1..MaxSess (2 = one rebuild)
           MaxOwed, MaxUnread,
-          DropCloses,       \* FALSE = as the code: getOrOpenStream drops an unusable pooled stream without Close
-          GetChecksUnread,  \* FALSE = as the code: getOrOpenStream does not look at unread data of a pooled stream
-          PutChecksWbuf,    \* FALSE = as the code: putOrCloseStream/reset do not look at the write buffer
-          Feat              \* optional actions: "fb" "closeheld" "sess" "rebuild" "peerclose" "reply" "write"
+          DropCloses,       \* FALSE = pinned tree: getOrOpenStream drops an unusable pooled stream without Close
+          GetChecksUnread,  \* FALSE = pinned tree: getOrOpenStream does not look at unread data of a pooled stream
+          PutChecksWbuf,    \* FALSE = pinned tree: putOrCloseStream/reset do not look at the write buffer
+          CloseArmsAlways,  \* FALSE = Stream.Close() arms the deferred close only while callbacks are set
+          ResetClearsCbFirst, \* design variant (seeded change m1): reset() clears the callbacks before its checks
+          PushBeforeRelease,  \* design variant (seeded change m2): push before ReleaseReadAndReuse
+          Feat              \* optional actions: "fb" "closeheld" "sess" "rebuild" "peerclose" "reply" "write" "cb" "split"
 
 Ids == 1..N
 SessIds == 1..MaxSess
@@ -39,7 +49,7 @@ VARIABLES sess,    \* [SessIds -> {"none","live","closing","dead"}]  closing = C
           bg,      \* "idle" | "drained": the background goroutine has run pool.close() for the lost session
           nid,     \* streams opened so far
           owner,   \* [Ids -> 0..MaxSess]
-          st,      \* client end of the stream: "none" "open" "half" (peer closed) "closed"
+          st,      \* client end of the stream: "none" "open" "half" (peer closed / close deferred) "closed"
           tab,     \* the stream is in its session's stream table (= counted by GetActiveStreamCount)
           unread,  \* unread messages at the client end (recvBuf + pendingData)
           ufb,     \* an unread message that has not been moved to recvBuf yet came through the socket fallback
@@ -53,14 +63,21 @@ VARIABLES sess,    \* [SessIds -> {"none","live","closing","dead"}]  closing = C
           leaked,  \* ghost: streams getOrOpenStream dropped without Close while they were in a live session's table
           late,    \* ghost: pooled streams that received an answer while they were in the pool
           wbuf,    \* the stream's write buffer holds a request the caller wrote and did not flush
-          wstale   \* ghost: pooled streams that were given back with an unflushed request in the write buffer
+          wstale,  \* ghost: pooled streams that were given back with an unflushed request in the write buffer
+          cb,      \* StreamCallbacks are set on the stream
+          inproc,  \* callbackInProcess: the callback goroutine runs (OnData has consumed a message and has not returned)
+          armed,   \* callbackCloseState = callbackWaitExit: the callback goroutine closes the stream when OnData returns
+          cbleak,  \* ghost: Close() deferred to a running callback goroutine WITHOUT arming it (nobody will close)
+          pc       \* [Callers -> "idle" | "rel" | "push"]: where the caller's PutBack is (feature "split")
 
-vars == <<sess, cur, bg, nid, owner, st, tab, unread, ufb, fb, rsv, cons, srv, owed, holder, ring, leaked, late, wbuf, wstale>>
-strm == <<st, tab, unread, ufb, fb, rsv, cons, srv, owed, wbuf>>
+vars == <<sess, cur, bg, nid, owner, st, tab, unread, ufb, fb, rsv, cons, srv, owed, holder, ring, leaked, late, wbuf, wstale,
+          cb, inproc, armed, cbleak, pc>>
+strm == <<st, tab, unread, ufb, fb, rsv, cons, srv, owed, wbuf, armed, cbleak>>   \* what CloseAll assigns
 
 Range(f) == {f[i] : i \in 1..Len(f)}
 Held == {holder[c] : c \in Callers} \ {0}
 Live(s) == owner[s] # 0 /\ sess[owner[s]] = "live"
+Track == "fb" \in Feat \/ "write" \in Feat        \* (cons is only tracked where it matters: it decides rsv and the swap)
 
 Init == /\ sess = [k \in SessIds |-> IF k = 1 THEN "live" ELSE "none"]
         /\ cur = 1 /\ bg = "idle" /\ nid = 0
@@ -71,20 +88,35 @@ Init == /\ sess = [k \in SessIds |-> IF k = 1 THEN "live" ELSE "none"]
         /\ srv = [s \in Ids |-> "none"] /\ owed = [s \in Ids |-> 0]
         /\ holder = [c \in Callers |-> 0] /\ ring = <<>>
         /\ leaked = {} /\ late = {} /\ wbuf = [s \in Ids |-> FALSE] /\ wstale = {}
+        /\ cb = [s \in Ids |-> FALSE] /\ inproc = [s \in Ids |-> FALSE] /\ armed = [s \in Ids |-> FALSE]
+        /\ cbleak = {} /\ pc = [c \in Callers |-> "idle"]
 
 -----------------------------------------------------------------------------
-(* Stream.Close() on every stream of S (client end): close CAS, clean (leave the table, drop unread data and buffers),
-   tell the peer if the stream was open and the session is not closed. *)
-StC(S)   == [s \in Ids |-> IF s \in S /\ st[s] # "none" THEN "closed" ELSE st[s]]
-TabC(S)  == [s \in Ids |-> IF s \in S THEN FALSE ELSE tab[s]]
-ZeroC(f, S) == [s \in Ids |-> IF s \in S THEN 0 ELSE f[s]]
-FalseC(f, S) == [s \in Ids |-> IF s \in S THEN FALSE ELSE f[s]]
-SrvC(S)  == [s \in Ids |-> IF s \in S /\ st[s] = "open" /\ Live(s) /\ srv[s] = "open" THEN "half" ELSE srv[s]]
-OwedC(S) == [s \in Ids |-> IF s \in S /\ st[s] = "open" /\ Live(s) THEN 0 ELSE owed[s]]
+(* Stream.Close() on every stream of S (client end).
+   No callback goroutine running (Now): close CAS, clean (leave the table, drop unread data and buffers), tell the peer if
+   the stream was open and the session is not closed.
+   Callback goroutine running (Def): the close is DEFERRED - the stream only becomes half-closed; the goroutine closes
+   it when OnData returns, provided Close() armed callbackCloseState, which it does only while callbacks are set
+   (`cbf` = the callbacks as Close() sees them). *)
+Now(S) == {s \in S : ~inproc[s]}
+Def(S) == {s \in S : inproc[s]}
+StC(S)   == [s \in Ids |-> IF s \in Now(S) /\ st[s] # "none" THEN "closed"
+                           ELSE IF s \in Def(S) /\ st[s] = "open" THEN "half" ELSE st[s]]
+TabC(S)  == [s \in Ids |-> IF s \in Now(S) THEN FALSE ELSE tab[s]]
+ZeroC(f, S) == [s \in Ids |-> IF s \in Now(S) THEN 0 ELSE f[s]]
+FalseC(f, S) == [s \in Ids |-> IF s \in Now(S) THEN FALSE ELSE f[s]]
+SrvC(S)  == [s \in Ids |-> IF s \in Now(S) /\ st[s] = "open" /\ Live(s) /\ srv[s] = "open" THEN "half" ELSE srv[s]]
+OwedC(S) == [s \in Ids |-> IF s \in Now(S) /\ st[s] = "open" /\ Live(s) THEN 0 ELSE owed[s]]
+Arms(s, cbf) == cbf[s] \/ CloseArmsAlways
+ArmC(S, cbf) == [s \in Ids |-> IF s \in Def(S) /\ Arms(s, cbf) THEN TRUE ELSE armed[s]]
+LeakC(S, cbf) == cbleak \cup {s \in Def(S) : ~Arms(s, cbf) /\ ~armed[s]}
 
-CloseAll(S) == /\ st' = StC(S) /\ tab' = TabC(S) /\ unread' = ZeroC(unread, S) /\ ufb' = FalseC(ufb, S)
+CloseAllCb(S, cbf) ==
+               /\ st' = StC(S) /\ tab' = TabC(S) /\ unread' = ZeroC(unread, S) /\ ufb' = FalseC(ufb, S)
                /\ fb' = FalseC(fb, S) /\ rsv' = FalseC(rsv, S) /\ cons' = FalseC(cons, S)
                /\ srv' = SrvC(S) /\ owed' = OwedC(S) /\ wbuf' = FalseC(wbuf, S)
+               /\ armed' = ArmC(S, cbf) /\ cbleak' = LeakC(S, cbf)
+CloseAll(S) == CloseAllCb(S, cb)
 
 -----------------------------------------------------------------------------
 (* getOrOpenStream *)
@@ -94,12 +126,13 @@ FirstUsable == IF \E i \in 1..Len(ring) : Usable(ring[i])
                ELSE 0
 
 Get(c) ==
-  /\ holder[c] = 0
+  /\ holder[c] = 0 /\ pc[c] = "idle"
   /\ LET k == FirstUsable
          dropped == IF k = 0 THEN Range(ring) ELSE {ring[i] : i \in 1..(k-1)}
          D == IF DropCloses THEN dropped ELSE {}        \* what is closed on the way
          lk == IF DropCloses THEN {} ELSE {s \in dropped : tab[s] /\ Live(s)}
      IN /\ (k = 0 /\ sess[cur] = "live") => nid < N        \* bound: a new id must be left
+        /\ (k > 0 => ~inproc[ring[k]])                      \* (named restriction: the previous user's OnData has returned)
         /\ leaked' = leaked \cup lk
         /\ late' = late \ (dropped \cup (IF k > 0 THEN {ring[k]} ELSE {}))
         /\ wstale' = wstale \ (dropped \cup (IF k > 0 THEN {ring[k]} ELSE {}))
@@ -117,37 +150,80 @@ Get(c) ==
                         /\ tab' = [TabC(D) EXCEPT ![nid + 1] = TRUE]
                         /\ unread' = ZeroC(unread, D) /\ ufb' = FalseC(ufb, D) /\ fb' = FalseC(fb, D)
                         /\ rsv' = FalseC(rsv, D) /\ cons' = FalseC(cons, D) /\ srv' = SrvC(D) /\ owed' = OwedC(D)
-                        /\ wbuf' = FalseC(wbuf, D)
+                        /\ wbuf' = FalseC(wbuf, D) /\ armed' = ArmC(D, cb) /\ cbleak' = LeakC(D, cb)
                    ELSE /\ CloseAll(D)                     \* OpenStream fails: the session is closed
                         /\ UNCHANGED <<nid, owner, holder>>
-  /\ UNCHANGED <<sess, cur, bg>>
+  /\ UNCHANGED <<sess, cur, bg, cb, inproc, pc>>
 
-(* putOrCloseStream *)
+(* putOrCloseStream = [fallback check, reset] ; ReleaseReadAndReuse ; push-or-close *)
+PutOk(s) == ~fb[s] /\ st[s] = "open" /\ unread[s] = 0 /\ (PutChecksWbuf => ~wbuf[s])
+\* the callbacks after reset(): cleared at its end when every check passed (or first thing, in the design variant)
+CbAfterReset(s) == IF fb[s] THEN cb
+                   ELSE IF PutOk(s) \/ ResetClearsCbFirst THEN [cb EXCEPT ![s] = FALSE] ELSE cb
+\* ReleaseReadAndReuse: if the read buffer holds exactly the consumed slice of the last message, that slice is reset and
+\* the two buffers are SWAPPED: the old write buffer - with whatever is in it - becomes the read buffer
+RelEff(s) == /\ rsv' = [rsv EXCEPT ![s] = rsv[s] \/ cons[s]]
+             /\ cons' = [cons EXCEPT ![s] = FALSE]
+             /\ unread' = [unread EXCEPT ![s] = unread[s] + (IF cons[s] /\ wbuf[s] THEN 1 ELSE 0)]
+             /\ wbuf' = [wbuf EXCEPT ![s] = wbuf[s] /\ ~cons[s]]
+             /\ wstale' = IF wbuf[s] THEN wstale \cup {s} ELSE wstale
+
 Put(c) ==
   LET s == holder[c] IN
-  /\ s # 0
+  /\ "split" \notin Feat
+  /\ s # 0 /\ pc[c] = "idle"
   /\ holder' = [holder EXCEPT ![c] = 0]
-  /\ IF ~fb[s] /\ st[s] = "open" /\ unread[s] = 0 /\ Len(ring) < Cap /\ (PutChecksWbuf => ~wbuf[s])
+  /\ cb' = CbAfterReset(s)
+  /\ IF PutOk(s) /\ Len(ring) < Cap
      THEN /\ ring' = Append(ring, s)
-          \* ReleaseReadAndReuse: if the read buffer holds exactly the consumed slice of the last message, that slice is
-          \* reset and the two buffers are SWAPPED: the old write buffer - with whatever the caller left in it - becomes
-          \* the read buffer
-          /\ rsv' = [rsv EXCEPT ![s] = rsv[s] \/ cons[s]]
-          /\ cons' = [cons EXCEPT ![s] = FALSE]
-          /\ unread' = [unread EXCEPT ![s] = IF cons[s] /\ wbuf[s] THEN 1 ELSE 0]
-          /\ wbuf' = [wbuf EXCEPT ![s] = wbuf[s] /\ ~cons[s]]
-          /\ wstale' = IF wbuf[s] THEN wstale \cup {s} ELSE wstale
-          /\ UNCHANGED <<st, tab, ufb, fb, srv, owed>>
-     ELSE /\ CloseAll({s})
+          /\ RelEff(s)
+          /\ UNCHANGED <<st, tab, ufb, fb, srv, owed, armed, cbleak>>
+     ELSE /\ CloseAllCb({s}, CbAfterReset(s))
           /\ UNCHANGED <<ring, wstale>>
-  /\ UNCHANGED <<sess, cur, bg, nid, owner, leaked, late>>
+  /\ UNCHANGED <<sess, cur, bg, nid, owner, leaked, late, inproc, pc>>
+
+PutBegin(c) ==
+  LET s == holder[c] IN
+  /\ "split" \in Feat
+  /\ s # 0 /\ pc[c] = "idle"
+  /\ cb' = CbAfterReset(s)
+  /\ IF PutOk(s)
+     THEN /\ pc' = [pc EXCEPT ![c] = IF PushBeforeRelease THEN "push" ELSE "rel"]
+          /\ UNCHANGED <<strm, holder, wstale>>
+     ELSE /\ CloseAllCb({s}, CbAfterReset(s))
+          /\ holder' = [holder EXCEPT ![c] = 0]
+          /\ UNCHANGED <<pc, wstale>>
+  /\ UNCHANGED <<sess, cur, bg, nid, owner, ring, leaked, late, inproc>>
+
+PutRelease(c) ==
+  LET s == holder[c] IN
+  /\ pc[c] = "rel"
+  /\ RelEff(s)
+  /\ IF PushBeforeRelease
+     THEN pc' = [pc EXCEPT ![c] = "idle"] /\ holder' = [holder EXCEPT ![c] = 0]
+     ELSE pc' = [pc EXCEPT ![c] = "push"] /\ UNCHANGED holder
+  /\ UNCHANGED <<sess, cur, bg, nid, owner, st, tab, ufb, fb, srv, owed, armed, cbleak, ring, leaked, late, cb, inproc>>
+
+PutPush(c) ==
+  LET s == holder[c] IN
+  /\ pc[c] = "push"
+  /\ IF Len(ring) < Cap
+     THEN /\ ring' = Append(ring, s)
+          /\ IF PushBeforeRelease
+             THEN pc' = [pc EXCEPT ![c] = "rel"] /\ UNCHANGED holder
+             ELSE pc' = [pc EXCEPT ![c] = "idle"] /\ holder' = [holder EXCEPT ![c] = 0]
+          /\ UNCHANGED strm
+     ELSE /\ CloseAll({s})
+          /\ pc' = [pc EXCEPT ![c] = "idle"] /\ holder' = [holder EXCEPT ![c] = 0]
+          /\ UNCHANGED ring
+  /\ UNCHANGED <<sess, cur, bg, nid, owner, leaked, late, wstale, cb, inproc>>
 
 (* use of the held stream: one request (WriteBytes + Flush) *)
 Send(c, f) ==
   LET s == holder[c]
       k == IF wbuf[s] THEN 2 ELSE 1      \* what is flushed: the buffered request (if any) and the new one
   IN
-  /\ s # 0 /\ Live(s)
+  /\ s # 0 /\ Live(s) /\ pc[c] = "idle"
   /\ (f => "fb" \in Feat)
   /\ IF st[s] # "open"
      THEN /\ ~f
@@ -160,44 +236,83 @@ Send(c, f) ==
           /\ srv' = [srv EXCEPT ![s] = "open"]
           /\ owed' = [owed EXCEPT ![s] = owed[s] + k]
   /\ wbuf' = [wbuf EXCEPT ![s] = FALSE]
-  /\ UNCHANGED <<sess, cur, bg, nid, owner, st, tab, unread, ufb, cons, holder, ring, leaked, late, wstale>>
+  /\ UNCHANGED <<sess, cur, bg, nid, owner, st, tab, unread, ufb, cons, holder, ring, leaked, late, wstale,
+                 cb, inproc, armed, cbleak, pc>>
 
 (* use of the held stream: the caller buffers a request (WriteBytes) and does not flush it *)
 Write(c) ==
   LET s == holder[c] IN
   /\ "write" \in Feat
-  /\ s # 0 /\ Live(s) /\ ~wbuf[s] /\ ~fb[s]
+  /\ s # 0 /\ Live(s) /\ ~wbuf[s] /\ ~fb[s] /\ pc[c] = "idle"
   /\ st[s] # "closed"     \* (WriteBytes on a stream the caller has closed allocates a buffer nobody releases: C09, not here)
   /\ wbuf' = [wbuf EXCEPT ![s] = TRUE]
-  /\ UNCHANGED <<sess, cur, bg, nid, owner, st, tab, unread, ufb, fb, rsv, cons, srv, owed, holder, ring, leaked, late, wstale>>
+  /\ UNCHANGED <<sess, cur, bg, nid, owner, st, tab, unread, ufb, fb, rsv, cons, srv, owed, holder, ring, leaked, late, wstale,
+                 cb, inproc, armed, cbleak, pc>>
 
-(* use of the held stream: read one message *)
+(* use of the held stream: read one message (synchronous mode) *)
 Read(c) ==
   LET s == holder[c] IN
-  /\ s # 0 /\ unread[s] > 0
+  /\ s # 0 /\ unread[s] > 0 /\ pc[c] = "idle" /\ ~cb[s] /\ ~inproc[s]
   /\ unread' = [unread EXCEPT ![s] = unread[s] - 1]
   /\ fb' = [fb EXCEPT ![s] = fb[s] \/ ufb[s]]
   /\ ufb' = [ufb EXCEPT ![s] = FALSE]
-  /\ cons' = [cons EXCEPT ![s] = ("fb" \in Feat \/ "write" \in Feat)]       \* (only tracked when exhaustion is explored: it decides rsv)
-  /\ UNCHANGED <<sess, cur, bg, nid, owner, st, tab, rsv, srv, owed, holder, ring, leaked, late, wbuf, wstale>>
+  /\ cons' = [cons EXCEPT ![s] = Track]
+  /\ UNCHANGED <<sess, cur, bg, nid, owner, st, tab, rsv, srv, owed, holder, ring, leaked, late, wbuf, wstale,
+                 cb, inproc, armed, cbleak, pc>>
+
+(* use of the held stream: switch it to callback mode *)
+SetCb(c) ==
+  LET s == holder[c] IN
+  /\ "cb" \in Feat
+  /\ s # 0 /\ pc[c] = "idle" /\ ~cb[s] /\ ~inproc[s] /\ st[s] # "closed"
+  /\ cb' = [cb EXCEPT ![s] = TRUE]
+  /\ UNCHANGED <<sess, cur, bg, nid, owner, strm, holder, ring, leaked, late, wstale, inproc, pc>>
 
 (* the caller closes the stream it holds (and gives it back later) *)
 CloseHeld(c) ==
   LET s == holder[c] IN
   /\ "closeheld" \in Feat
-  /\ s # 0 /\ st[s] # "closed"
+  /\ s # 0 /\ st[s] # "closed" /\ pc[c] = "idle"
   /\ CloseAll({s})
-  /\ UNCHANGED <<sess, cur, bg, nid, owner, holder, ring, leaked, late, wstale>>
+  /\ UNCHANGED <<sess, cur, bg, nid, owner, holder, ring, leaked, late, wstale, cb, inproc, pc>>
 
-(* the peer answers one request; the answer reaches the client end wherever the stream is (held or pooled) *)
+(* the peer answers one request; the answer reaches the client end wherever the stream is (held or pooled). In callback
+   mode with no callback goroutine running one is started: OnData consumes a message and stays in OnData *)
 PeerReply(s, f) ==
   /\ "reply" \in Feat /\ (f => "fb" \in Feat)
   /\ srv[s] = "open" /\ owed[s] > 0 /\ Live(s) /\ st[s] = "open" /\ unread[s] < MaxUnread
   /\ owed' = [owed EXCEPT ![s] = owed[s] - 1]
-  /\ unread' = [unread EXCEPT ![s] = unread[s] + 1]
-  /\ ufb' = [ufb EXCEPT ![s] = ufb[s] \/ f]
-  /\ late' = IF s \in Range(ring) THEN late \cup {s} ELSE late
-  /\ UNCHANGED <<sess, cur, bg, nid, owner, st, tab, fb, rsv, cons, srv, holder, ring, leaked, wbuf, wstale>>
+  /\ IF cb[s] /\ ~inproc[s]
+     THEN /\ inproc' = [inproc EXCEPT ![s] = TRUE]
+          /\ fb' = [fb EXCEPT ![s] = fb[s] \/ ufb[s] \/ f]
+          /\ ufb' = [ufb EXCEPT ![s] = FALSE]
+          /\ cons' = [cons EXCEPT ![s] = Track]
+          /\ UNCHANGED <<unread, late>>
+     ELSE /\ unread' = [unread EXCEPT ![s] = unread[s] + 1]
+          /\ ufb' = [ufb EXCEPT ![s] = ufb[s] \/ f]
+          /\ late' = IF s \in Range(ring) THEN late \cup {s} ELSE late
+          /\ UNCHANGED <<inproc, fb, cons>>
+  /\ UNCHANGED <<sess, cur, bg, nid, owner, st, tab, rsv, srv, holder, ring, leaked, wbuf, wstale, cb, armed, cbleak, pc>>
+
+(* OnData returns. The callback goroutine offers the next unread message while the stream is open (OnData again); else it
+   leaves, and closes the stream if a Close() was deferred to it AND armed *)
+CbReturn(s) ==
+  /\ inproc[s]
+  /\ IF st[s] = "open" /\ unread[s] > 0
+     THEN /\ unread' = [unread EXCEPT ![s] = unread[s] - 1]
+          /\ fb' = [fb EXCEPT ![s] = fb[s] \/ ufb[s]]
+          /\ ufb' = [ufb EXCEPT ![s] = FALSE]
+          /\ cons' = [cons EXCEPT ![s] = Track]
+          /\ UNCHANGED <<st, tab, rsv, wbuf, armed, inproc>>
+     ELSE /\ inproc' = [inproc EXCEPT ![s] = FALSE]
+          /\ IF armed[s]
+             THEN /\ st' = [st EXCEPT ![s] = "closed"] /\ tab' = [tab EXCEPT ![s] = FALSE]
+                  /\ unread' = [unread EXCEPT ![s] = 0] /\ ufb' = [ufb EXCEPT ![s] = FALSE]
+                  /\ fb' = [fb EXCEPT ![s] = FALSE] /\ rsv' = [rsv EXCEPT ![s] = FALSE]
+                  /\ cons' = [cons EXCEPT ![s] = FALSE] /\ wbuf' = [wbuf EXCEPT ![s] = FALSE]
+                  /\ armed' = [armed EXCEPT ![s] = FALSE]
+             ELSE UNCHANGED <<st, tab, unread, ufb, fb, rsv, cons, wbuf, armed>>
+  /\ UNCHANGED <<sess, cur, bg, nid, owner, srv, owed, holder, ring, leaked, late, wstale, cb, cbleak, pc>>
 
 (* the peer closes its end *)
 PeerClose(s) ==
@@ -206,19 +321,22 @@ PeerClose(s) ==
   /\ srv' = [srv EXCEPT ![s] = "closed"]
   /\ owed' = [owed EXCEPT ![s] = 0]
   /\ st' = [st EXCEPT ![s] = IF st[s] = "open" THEN "half" ELSE st[s]]
-  /\ UNCHANGED <<sess, cur, bg, nid, owner, tab, unread, ufb, fb, rsv, cons, holder, ring, leaked, late, wbuf, wstale>>
+  /\ UNCHANGED <<sess, cur, bg, nid, owner, tab, unread, ufb, fb, rsv, cons, holder, ring, leaked, late, wbuf, wstale,
+                 cb, inproc, armed, cbleak, pc>>
+
+NoCbRunning(k) == \A s \in Ids : owner[s] = k => ~inproc[s]
 
 (* session loss: Session.Close() (local close, or exitErr after the peer died): shutdown flag set, teardown posted *)
 SessClose ==
   /\ "sess" \in Feat
-  /\ sess[cur] = "live"
+  /\ sess[cur] = "live" /\ NoCbRunning(cur)
   /\ sess' = [sess EXCEPT ![cur] = "closing"]
-  /\ UNCHANGED <<cur, bg, nid, owner, strm, holder, ring, leaked, late, wstale>>
+  /\ UNCHANGED <<cur, bg, nid, owner, strm, holder, ring, leaked, late, wstale, cb, inproc, pc>>
 
 (* the posted teardown: every stream still in the table is closed, the table is dropped *)
 Teardown(k) ==
   LET S == {s \in Ids : owner[s] = k /\ tab[s]} IN
-  /\ sess[k] = "closing"
+  /\ sess[k] = "closing" /\ NoCbRunning(k)
   /\ sess' = [sess EXCEPT ![k] = "dead"]
   /\ st' = StC(S) /\ tab' = TabC(S) /\ unread' = ZeroC(unread, S) /\ ufb' = FalseC(ufb, S)
   /\ fb' = FalseC(fb, S) /\ rsv' = FalseC(rsv, S) /\ cons' = FalseC(cons, S)
@@ -228,8 +346,9 @@ Teardown(k) ==
   /\ leaked' = leaked \ {s \in Ids : owner[s] = k}
   /\ late' = late \ {s \in Ids : owner[s] = k}
   /\ wstale' = wstale \ {s \in Ids : owner[s] = k}
+  /\ cbleak' = cbleak \ {s \in Ids : owner[s] = k}
   /\ wbuf' = FalseC(wbuf, S)
-  /\ UNCHANGED <<cur, bg, nid, owner, holder, ring>>
+  /\ UNCHANGED <<cur, bg, nid, owner, holder, ring, cb, inproc, armed, pc>>
 
 (* SessionManager.background: the session's CloseChan fired -> pool.close() ... *)
 PoolDrain ==
@@ -240,7 +359,7 @@ PoolDrain ==
   /\ bg' = "drained"
   /\ late' = late \ Range(ring)
   /\ wstale' = wstale \ Range(ring)
-  /\ UNCHANGED <<sess, cur, nid, owner, holder, leaked>>
+  /\ UNCHANGED <<sess, cur, nid, owner, holder, leaked, cb, inproc, pc>>
 
 (* ... and after the rebuild interval a new session is stored into the same pool *)
 Rebuild ==
@@ -248,10 +367,11 @@ Rebuild ==
   /\ cur' = cur + 1
   /\ sess' = [sess EXCEPT ![cur + 1] = "live"]
   /\ bg' = "idle"
-  /\ UNCHANGED <<nid, owner, strm, holder, ring, leaked, late, wstale>>
+  /\ UNCHANGED <<nid, owner, strm, holder, ring, leaked, late, wstale, cb, inproc, pc>>
 
-Next == \/ \E c \in Callers : Get(c) \/ Put(c) \/ Read(c) \/ Write(c) \/ CloseHeld(c) \/ Send(c, FALSE) \/ Send(c, TRUE)
-        \/ \E s \in Ids : PeerReply(s, FALSE) \/ PeerReply(s, TRUE) \/ PeerClose(s)
+Next == \/ \E c \in Callers : \/ Get(c) \/ Put(c) \/ PutBegin(c) \/ PutRelease(c) \/ PutPush(c)
+                              \/ Read(c) \/ Write(c) \/ CloseHeld(c) \/ SetCb(c) \/ Send(c, FALSE) \/ Send(c, TRUE)
+        \/ \E s \in Ids : PeerReply(s, FALSE) \/ PeerReply(s, TRUE) \/ PeerClose(s) \/ CbReturn(s)
         \/ SessClose \/ PoolDrain \/ Rebuild
         \/ \E k \in SessIds : Teardown(k)
 
@@ -265,6 +385,8 @@ TypeOK == /\ sess \in [SessIds -> {"none", "live", "closing", "dead"}] /\ cur \i
           /\ srv \in [Ids -> {"none", "open", "half", "closed"}]
           /\ holder \in [Callers -> 0..N] /\ Len(ring) <= Cap /\ Range(ring) \subseteq 1..nid
           /\ wbuf \in [Ids -> BOOLEAN] /\ wstale \subseteq Ids /\ late \subseteq Ids /\ leaked \subseteq Ids
+          /\ cb \in [Ids -> BOOLEAN] /\ inproc \in [Ids -> BOOLEAN] /\ armed \in [Ids -> BOOLEAN] /\ cbleak \subseteq Ids
+          /\ pc \in [Callers -> {"idle", "rel", "push"}]
 
 (* no stream is handed to two callers at once (nor to a caller while it sits in the pool) *)
 Exclusive == /\ \A c, d \in Callers : (c # d /\ holder[c] # 0) => holder[c] # holder[d]
@@ -272,26 +394,36 @@ Exclusive == /\ \A c, d \in Callers : (c # d /\ holder[c] # 0) => holder[c] # ho
              /\ Held \cap Range(ring) = {}
 
 (* a stream obtained from the manager is open, belongs to a live session, carries no bytes from an earlier use *)
-FreshAt(s) == st[s] = "open" /\ Live(s) /\ owner[s] = cur /\ unread[s] = 0
 Handed(c) == holder[c] = 0 /\ holder'[c] # 0
 Fresh == [][\A c \in Callers : Handed(c) =>
               LET s == holder'[c] IN /\ st'[s] = "open" /\ sess'[owner'[s]] = "live" /\ owner'[s] = cur'
-                                     /\ unread'[s] = 0 /\ ~wbuf'[s]]_vars
+                                     /\ unread'[s] = 0 /\ ~wbuf'[s] /\ ~inproc'[s]]_vars
 (* ... outside the classes "an answer reached the stream while it was pooled" and "given back with an unflushed request" *)
 FreshModKnown == [][\A c \in Callers : Handed(c) =>
                       LET s == holder'[c] IN /\ st'[s] = "open" /\ sess'[owner'[s]] = "live" /\ owner'[s] = cur'
+                                             /\ ~inproc'[s]
                                              /\ ((unread'[s] = 0 /\ ~wbuf'[s]) \/ s \in late \/ s \in wstale)]_vars
 
-(* a stream given back is kept for reuse or closed *)
+(* a stream given back is kept for reuse or closed - at once, or by its still running callback goroutine *)
 PutOutcome == [][\A c \in Callers : (holder[c] # 0 /\ holder'[c] = 0) =>
-                   LET s == holder[c] IN s \in Range(ring') \/ (st'[s] = "closed" /\ ~tab'[s])]_vars
+                   LET s == holder[c] IN \/ s \in Range(ring')
+                                         \/ (st'[s] = "closed" /\ ~tab'[s])
+                                         \/ (inproc'[s] /\ (armed'[s] \/ s \in cbleak'))]_vars
+(* ... and when that goroutine leaves, the stream is held, pooled or closed *)
+DeferredCloseDone == [][\A s \in Ids : (inproc[s] /\ ~inproc'[s]) =>
+                          (s \in Held \/ s \in Range(ring) \/ st'[s] = "closed" \/ s \in cbleak)]_vars
+DeferredCloseDoneStrict == [][\A s \in Ids : (inproc[s] /\ ~inproc'[s]) =>
+                                (s \in Held \/ s \in Range(ring) \/ st'[s] = "closed")]_vars
 
-(* the active-stream count of a live session is what callers hold plus what the pool keeps *)
-NoLeak == \A s \in Ids : (tab[s] /\ Live(s)) => (s \in Held \/ s \in Range(ring))
-NoLeakModKnown == \A s \in Ids : (tab[s] /\ Live(s)) => (s \in Held \/ s \in Range(ring) \/ s \in leaked)
+(* the active-stream count of a live session is what callers hold plus what the pool keeps (plus streams whose user's
+   callback is still running: their close is pending) *)
+NoLeak == \A s \in Ids : (tab[s] /\ Live(s)) => (s \in Held \/ s \in Range(ring) \/ inproc[s])
+NoLeakModKnown == \A s \in Ids : (tab[s] /\ Live(s)) =>
+                     (s \in Held \/ s \in Range(ring) \/ inproc[s] \/ s \in leaked \/ s \in cbleak)
 ActiveCount(k) == Cardinality({s \in Ids : owner[s] = k /\ tab[s]})
 CountExact == \A k \in SessIds : sess[k] = "live" =>
-                 ActiveCount(k) = Cardinality({s \in Held \cup Range(ring) \cup leaked : owner[s] = k /\ tab[s]})
+                 ActiveCount(k) = Cardinality({s \in Held \cup Range(ring) \cup leaked \cup cbleak \cup {x \in Ids : inproc[x]} :
+                                                  owner[s] = k /\ tab[s]})
 
 (* table membership follows the stream state *)
 TableShape == \A s \in Ids : /\ (st[s] \in {"none", "closed"} => ~tab[s])
